@@ -9,6 +9,7 @@ mod jobs;
 #[global_allocator]
 static GLOBAL: worker::CapAlloc = worker::CapAlloc;
 mod c02;
+mod c09;
 mod c13;
 mod c14;
 mod c16;
@@ -51,6 +52,15 @@ fn main() {
         ("search", "C02") => {
             let mut s = util::Search::new();
             c02::search(&tier, seed, &mut s);
+            s.finish();
+        }
+        ("corr", "C09") => {
+            let mut c = util::Corr::new();
+            c09::corr(&tier, seed, &mut c);
+        }
+        ("search", "C09") => {
+            let mut s = util::Search::new();
+            c09::search(&tier, seed, &mut s);
             s.finish();
         }
         ("corr", "C13") => {
